@@ -49,7 +49,7 @@ class C17(RecorderProp):
             'operation content and outcome, mixed classes (one an unconfigured subclass of a configured class) with forcing in one run; '
             'storage-level sampling of the S3 cassette with a size-based calculator, ordered / random-order lookups through the same '
             'cassette between the saves (they consume nothing of the sampling stream), the size handed to the calculator against the stored size, '
-            'the cassette\'s own seeded generator in two interpreters; non-trivial = a recording scope was opened; distinct = distinct canonical case')
+            'the cassette\'s own seeded generator in two interpreters, the second of which may also save through another sampled S3 cassette; non-trivial = a recording scope was opened; distinct = distinct canonical case')
     N = {'quick': 3, 'thorough': 40}
     HIST = {'quick': 300, 'thorough': 2000}
     TIME_BUDGET = {'quick': 240, 'thorough': 3000}
@@ -87,8 +87,8 @@ class C17(RecorderProp):
             cases += self.history_group(rng, self.HIST[tier])
         for _ in range(4 if tier == 'quick' else 60):
             cases.append(self.s3_case(rng))
-        for _ in range(2 if tier == 'quick' else 8):
-            cases.append(self.s3_process_case(rng))
+        for i in range(2 if tier == 'quick' else 8):
+            cases.append(dict(self.s3_process_case(rng), neighbour=(3, 0, 1, 2)[i % 4]))
         return cases
 
     def history_group(self, rng, n):
@@ -130,7 +130,9 @@ class C17(RecorderProp):
     def s3_process_case(self, rng):
         """the S3 cassette's own seeded generator, untouched: the same saves in two interpreters (different string-hash salts)"""
         return {'kind': 's3process', 'model': False, 'prefix': rng.choice(['', 'pre', 'proj/a', 'x']),
-                'ratio': rng.choice([[1, 2], [1, 4], [3, 4]]), 'n': 40}
+                'ratio': rng.choice([[1, 2], [1, 4], [3, 4]]), 'n': 40,
+                # the second interpreter also runs another sampled S3 cassette: k saves before, some between the saves
+                'neighbour': rng.choice([0, 1, 3])}
 
     @staticmethod
     def run_s3_process(case):
@@ -143,17 +145,24 @@ class C17(RecorderProp):
             "from harness import fake_s3\n"
             "fake_s3.reset(); fake_s3.install()\n"
             "from playback.tape_cassettes.s3.s3_tape_cassette import S3TapeCassette\n"
+            "neighbour = int(sys.argv[1])\n"
+            "other = S3TapeCassette('b17q', key_prefix='other', read_only=False, sampling_calculator=lambda cat, size, rec: 0.5) if neighbour else None\n"
+            "def other_saves(k):\n"
+            "    for j in range(k if other else 0):\n"
+            "        r = other.create_new_recording('Else'); r.set_data('k', j); other.save_recording(r)\n"
+            "other_saves(neighbour)\n"
             "c = S3TapeCassette('b17p', key_prefix=%r, read_only=False, sampling_calculator=lambda cat, size, rec: %r)\n"
             "out = []\n"
             "for i in range(%d):\n"
             "    r = c.create_new_recording('Op'); r.set_data('k', i)\n"
             "    before = len(fake_s3.store('b17p').log); c.save_recording(r)\n"
             "    out.append(len(fake_s3.store('b17p').log) > before)\n"
+            "    other_saves(i %% 3)\n"
             "print(json.dumps(out))\n"
         ) % (engine.REPO, engine.VERIF, case['prefix'], float(case['ratio'][0]) / case['ratio'][1], case['n'])
         runs = []
-        for salt in ('1', '2'):
-            p = subprocess.run([sys.executable, '-c', code], capture_output=True, text=True, timeout=120,
+        for salt, neighbour in (('1', 0), ('2', case.get('neighbour', 0))):
+            p = subprocess.run([sys.executable, '-c', code, str(neighbour)], capture_output=True, text=True, timeout=120,
                                env=dict(os.environ, PYTHONHASHSEED=salt))
             if p.returncode != 0:
                 return {'error': p.stderr[-800:]}
@@ -297,8 +306,10 @@ class C17(RecorderProp):
             if a != b:
                 diff = [i for i, (x, y) in enumerate(zip(a, b)) if x != y]
                 return ['the same %d saves (ratio %r, key prefix %r) through the S3 cassette\'s own seeded generator in two interpreters '
-                        '(PYTHONHASHSEED 1 / 2): %d keep / drop decisions differ, first at save %d'
-                        % (case['n'], case['ratio'], case['prefix'], len(diff), diff[0])]
+                        '(PYTHONHASHSEED 1 / 2%s): %d keep / drop decisions differ, first at save %d'
+                        % (case['n'], case['ratio'], case['prefix'],
+                           '; the second one also saves through another sampled S3 cassette' if case.get('neighbour') else '',
+                           len(diff), diff[0])]
             return []
         if case.get('kind') == 's3sample':
             for i, (ratio, d, r) in enumerate(zip(case['ratios'], case['draws'], impl)):
@@ -358,7 +369,7 @@ class C17(RecorderProp):
 
     def features(self, case, impl):
         if case.get('kind') == 's3process':
-            return ['s3-own-generator-two-interpreters']
+            return ['s3-own-generator-two-interpreters' + ('+neighbour-cassette' if case.get('neighbour') else '')]
         if case.get('kind') == 's3sample':
             return ['s3sample']
         if 'row' in case:
